@@ -22,6 +22,18 @@ import (
 
 var fmtNames = []string{"", "json", "cloudevents-json", "text"}
 
+// gateWriter: a writer whose Write takes a moment (so that other Process calls pile up meanwhile)
+type gateWriter struct {
+	hold time.Duration
+	buf  []byte
+}
+
+func (g *gateWriter) Write(b []byte) (int, error) {
+	time.Sleep(g.hold)
+	g.buf = append(g.buf, b...)
+	return len(b), nil
+}
+
 type testWriter struct {
 	kind   string
 	n      int
@@ -84,7 +96,7 @@ func sinksMain(args []string) {
 	ctx := context.Background()
 	for i := 0; i < *n; i++ {
 		st.Cases++
-		switch p.intn(11) {
+		switch p.intn(12) {
 		case 0, 1, 2, 3, 4: // writer.Sink
 			tbl, toks := genTable()
 			cfg := p.intn(4)
@@ -254,6 +266,44 @@ func sinksMain(args []string) {
 			}
 			o.emit(fmt.Sprintf("chan %s %s false %s", bstr(mode != 0), bstr(mode == 0), obs), "ok")
 			st.hit("chan-during-wait:" + obs)
+		case 11: // writer.Sink: 2..16 Process calls at once, one of them held inside Write for a moment
+			if st.Counts["writer-concurrent"] >= 60 {
+				continue
+			}
+			nC := 2 + p.intn(15)
+			gw := &gateWriter{hold: time.Duration(50+p.intn(400)) * time.Microsecond}
+			ws := &writer.Sink{Writer: gw}
+			var wgc sync.WaitGroup
+			okc := make([]bool, nC)
+			for k := 0; k < nC; k++ {
+				wgc.Add(1)
+				go func(k int) {
+					defer wgc.Done()
+					val := []byte(fmt.Sprintf("{\"w\":%d,\"pad\":\"%s\"}\n", k, strings.Repeat("x", k*3)))
+					_, err := ws.Process(ctx, &eventlogger.Event{Formatted: map[string][]byte{"json": val}})
+					okc[k] = err == nil
+				}(k)
+			}
+			wgc.Wait()
+			got := string(gw.buf)
+			for k := 0; k < nC; k++ {
+				val := fmt.Sprintf("{\"w\":%d,\"pad\":\"%s\"}\n", k, strings.Repeat("x", k*3))
+				if c := strings.Count(got, val); okc[k] && c != 1 {
+					oracle("C13 writer.Sink: %d concurrent Process calls all reported success, but the bytes of call %d are in the writer %d times (exactly once, contiguous)", nC, k, c)
+					break
+				}
+			}
+			if len(got) != func() (t int) {
+				for k := 0; k < nC; k++ {
+					if okc[k] {
+						t += len(fmt.Sprintf("{\"w\":%d,\"pad\":\"%s\"}\n", k, strings.Repeat("x", k*3)))
+					}
+				}
+				return
+			}() {
+				oracle("C13 writer.Sink: the writer holds %d bytes, not the sum of the acknowledged events", len(got))
+			}
+			st.hit("writer-concurrent")
 		case 10: // ChannelSink: several Process calls at once on one sink, each with its own bounded wait
 			if st.Counts["chan-concurrent"] >= 25 {
 				continue // each of these takes a timeout's worth of wall clock
